@@ -131,7 +131,7 @@ def assignment_loops(ctx):
         for bi, si, st in cb.iter_stmts():
             if st["k"] != "assign" or cb.blocks[bi]["cleanup"] or st["place"].get("ty") != "bool" or not st["place"]["p"]:
                 continue
-            dest = S.strip_refs(csy.place(st["place"]))
+            dest = S.strip_refs(csy.dest(st["place"]))
             nm = None
             if dest[0] == "upvar":
                 nm = dest[2]
